@@ -25,7 +25,7 @@ RULE = ("(a) exhaustive: every rule-tree shape with <= N branches (N=4 quick, 5 
         "refinement / alternative, alternatives under refinements) x every assignment of branch conditions from "
         "{a>2, b>2, c>2, always-true} on the 8-object cube {1,3}^3, where every branch both fires and does not fire, chains of >= 2 alternatives "
         "in both declaration styles (nested `with` blocks / sibling `with` blocks); "
-        "(b) random thresholds and 3-7 random objects; (c) random trees in which one branch joins a second variable (l.src == x, 0-2 links per item) so that there is one row and one conclusion per link, with branches below it testing the link; every tree is evaluated twice; a share of the trees is also built incrementally (evaluated, then extended by the root's alternatives in a later rule_mode(query) session, then evaluated three times). Non-trivial: at least two different conclusions are produced "
+        "(b) random thresholds and 3-7 random objects; (c) random trees in which one branch joins a second variable (l.src == x, 0-2 links per item) so that there is one row and one conclusion per link, with branches below it testing the link; branch conditions also include function predicates (with a defaulted parameter), or_ of a comparison and a predicate term, for_all over a second pool, and a nested an(...) with an or_ as the whole condition of a branch; conclusions may carry a nested query as a field value; (d) trees over (parent, flattened element) matches with refinement, its alternative and an alternative of the base; every tree is evaluated twice; a share of the trees is also built incrementally (evaluated, then extended by the root's alternatives in a later rule_mode(query) session, then evaluated three times). Non-trivial: at least two different conclusions are produced "
         "and at least one object gets none or an overridden one; distinct by (tree, data).")
 LEVEL_TEXT = ("Reference-model monitoring: the real rule tree (Add conclusions, refinement(), alternative() under "
               "rule_mode(query)) is evaluated and the inferred instances are compared, as a multiset of (conclusion tag, "
